@@ -6,6 +6,7 @@ package vharness
 
 import (
 	"fmt"
+	"runtime"
 	"sort"
 	"strings"
 	"sync"
@@ -29,7 +30,7 @@ type batchCfg struct {
 	Out      [][]int // per batch per item: 0 ok 1 err 2 panic
 	Gated    bool    // all items finish at the same quiescent point
 	Reject   int     // 0 none, 1 queue closed before AddAll, 2 queue closed between two batches
-	Purge    int     // 0 none, 1 purge while items are pending (worker saturated by gated items)
+	Purge    int     // 0 none, 1 purge while items are pending (worker saturated by gated items), 2 purges racing the AddAll calls
 	Singles  int     // single jobs mixed in
 	NoReader bool    // nobody reads the stream; Drain() is used instead
 }
@@ -57,6 +58,8 @@ func drawBatch(r *Rng, big bool) batchCfg {
 	c.Reject = Pick(r, 0, 0, 0, 1, 2)
 	if c.Gated && r.Chance(30) {
 		c.Purge = 1
+	} else if r.Chance(20) {
+		c.Purge = 2
 	}
 	c.Singles = r.Intn(3)
 	c.NoReader = r.Chance(15)
@@ -99,6 +102,24 @@ func epBatch(c *RunCtx, cfg batchCfg) *Result {
 		idx := 0
 		var runs []*batchRun
 		var rwg sync.WaitGroup
+		stopPurger := make(chan struct{})
+		purgerDone := make(chan struct{})
+		if cfg.Purge == 2 {
+			go func() {
+				defer close(purgerDone)
+				for {
+					select {
+					case <-stopPurger:
+						return
+					default:
+					}
+					q.Base.Purge()
+					runtime.Gosched()
+				}
+			}()
+		} else {
+			close(purgerDone)
+		}
 		for bi, sz := range cfg.Sizes {
 			br := &batchRun{lo: idx, hi: idx + sz}
 			var items []varmq.Item[int]
@@ -165,6 +186,8 @@ func epBatch(c *RunCtx, cfg batchCfg) *Result {
 				}
 			}()
 		}
+		close(stopPurger)
+		<-purgerDone
 		// single jobs mixed in (only when the queue is still open)
 		var singles []int
 		for i := 0; i < cfg.Singles && cfg.Reject == 0; i++ {
@@ -191,7 +214,8 @@ func epBatch(c *RunCtx, cfg batchCfg) *Result {
 						want++
 					}
 				}
-				if got := br.b.NumPending(); got != want {
+				// racing purges may have cancelled any subset: only the upper bound is known then
+				if got := br.b.NumPending(); (cfg.Purge != 2 && got != want) || got > want {
 					e.Fail("C08", "pending-at-q", "", fmt.Sprintf("%s: batch %d NumPending=%d, items not finished %d", cfg, bi, got, want))
 				}
 			}
@@ -346,7 +370,8 @@ func epBatch(c *RunCtx, cfg batchCfg) *Result {
 					found = true
 				}
 			}
-			if !found {
+			// the dispatcher reports its own conditions on the same channel (a dequeue that lost to a purge)
+			if !found && !strings.Contains(we, "failed to dequeue job") && !strings.Contains(we, "failed to get next queue") {
 				e.Fail("C07", "invented-error", "", fmt.Sprintf("%s: Errs() delivered %q which no job produced", cfg, we))
 			}
 		}
